@@ -206,19 +206,25 @@ Definition parse_q (o : oracle) (s : str) : qres :=
             end
   end.
 
+(* what the model is run with: [c_fixed] selects the quote-aware splitting of the range list
+   (fixes/C13-quoted-comma-media-ranges.patch; false = header.split(',') as found), [c_oracle]
+   the float() table *)
+Record cfg := { c_fixed : bool; c_oracle : oracle }.
+Definition cfg0 : cfg := {| c_fixed := true; c_oracle := None |}.
+
 (* ---- _MediaRange.parse *)
 Record mrange := { r_main : str; r_sub : str; r_q : Q; r_params : params }.
 
 Definition s_q : str := [113].
 
-Definition parse_media_range (o : oracle) (s : str) : res mrange :=
+Definition parse_media_range (o : cfg) (s : str) : res mrange :=
   match parse_media_type s with
   | None => Err EInvalidMediaRange
   | Some t =>
     match pget (t_params t) s_q with
     | None => Ok {| r_main := t_main t; r_sub := t_sub t; r_q := 1; r_params := t_params t |}
     | Some qs =>
-      match parse_q o qs with
+      match parse_q (c_oracle o) qs with
       | QOk q => Ok {| r_main := t_main t; r_sub := t_sub t; r_q := q; r_params := pdel (t_params t) s_q |}
       | QBad => Err EInvalidMediaRange
       | QNeed => Err ENeedOracle
@@ -235,8 +241,35 @@ Fixpoint map_res {A B} (f : A -> res B) (l : list A) : res (list B) :=
                end
   end.
 
-Definition parse_media_ranges (o : oracle) (header : str) : res (list mrange) :=
-  map_res (parse_media_range o) (split_chr comma header).
+(* _split_media_ranges: commas separate list members only outside quoted strings
+   (RFC 9110 5.6.1 / 5.6.4: inside DQUOTEs a backslash escapes the next character); None = the
+   header ends inside a quoted string *)
+Fixpoint split_quoted (s : str) (cur : str) (quoted escaped : bool) : option (list str) :=
+  match s with
+  | [] => if quoted then None else Some [rev cur]
+  | c :: tl =>
+    if quoted then
+      if escaped then split_quoted tl (c :: cur) true false
+      else if c =? bsl then split_quoted tl (c :: cur) true true
+      else if c =? dq then split_quoted tl (c :: cur) false false
+      else split_quoted tl (c :: cur) true false
+    else if c =? dq then split_quoted tl (c :: cur) true false
+    else if c =? comma then
+      match split_quoted tl [] false false with Some l => Some (rev cur :: l) | None => None end
+    else split_quoted tl (c :: cur) false false
+  end.
+
+Definition split_media_ranges (fixed : bool) (header : str) : list str :=
+  if fixed then
+    if negb (char_in dq header) then split_chr comma header
+    else match split_quoted header [] false false with
+         | Some l => l
+         | None => split_chr comma header        (* unterminated quote: plain split *)
+         end
+  else split_chr comma header.
+
+Definition parse_media_ranges (o : cfg) (header : str) : res (list mrange) :=
+  map_res (parse_media_range o) (split_media_ranges (c_fixed o) header).
 
 (* ---- match_score *)
 Record score := { s1 : Z; s2 : Z; s3 : Z; s4 : Z; sq : Q }.
@@ -286,7 +319,7 @@ Definition quality_ranges (t : mtype) (rs : list mrange) : Q :=
   end.
 
 (* mediatypes.quality(media_type, header) *)
-Definition quality (o : oracle) (media_type header : str) : res Q :=
+Definition quality (o : cfg) (media_type header : str) : res Q :=
   match parse_media_type media_type with
   | None => Err EInvalidMediaType
   | Some t =>
@@ -304,7 +337,7 @@ Fixpoint max_by (cur : str * Q) (l : list (str * Q)) : str * Q :=
   end.
 
 (* mediatypes.best_match: None = '' *)
-Definition best_match (o : oracle) (media_types : list str) (header : str) : res (option str) :=
+Definition best_match (o : cfg) (media_types : list str) (header : str) : res (option str) :=
   match map_res (fun mt => match quality o mt header with Ok q => Ok (mt, q) | Err e => Err e end)
                 media_types with
   | Err e => Err e
@@ -318,7 +351,7 @@ Definition any_type : str := [star; slash; star].
 Definition req_accept (hdr : option str) : str :=
   match hdr with Some (c :: s) => c :: s | _ => any_type end.
 
-Definition client_accepts (o : oracle) (hdr : option str) (media_type : str) : res bool :=
+Definition client_accepts (o : cfg) (hdr : option str) (media_type : str) : res bool :=
   let accept := req_accept hdr in
   if str_eqb accept media_type || str_eqb accept any_type then Ok true
   else match quality o media_type accept with
@@ -328,7 +361,7 @@ Definition client_accepts (o : oracle) (hdr : option str) (media_type : str) : r
        | Err _ => Ok false
        end.
 
-Definition client_prefers (o : oracle) (hdr : option str) (media_types : list str) : res (option str) :=
+Definition client_prefers (o : cfg) (hdr : option str) (media_types : list str) : res (option str) :=
   match best_match o media_types (req_accept hdr) with
   | Ok r => Ok r
   | Err ENeedOracle => Err ENeedOracle
@@ -361,7 +394,7 @@ Definition ckey_eqb (a b : ckey) : bool :=
   opt_str_eqb m1 m2 && str_eqb d1 d2 && Bool.eqb r1 r2.
 
 (* the body of resolve(), without the cache *)
-Definition resolve_uncached (o : oracle) (d : hdata) (k : ckey) : rres :=
+Definition resolve_uncached (o : cfg) (d : hdata) (k : ckey) : rres :=
   let '(mt, default, raise_nf) := k in
   let mt := match mt with
             | Some (c :: s) => if str_eqb (c :: s) any_type then default else c :: s
@@ -389,7 +422,7 @@ Fixpoint lru_remove (c : lru) (k : ckey) : lru :=
 
 Record hobj := { h_data : hdata; h_cache : lru }.
 
-Definition resolve (o : oracle) (h : hobj) (k : ckey) : hobj * rres :=
+Definition resolve (o : cfg) (h : hobj) (k : ckey) : hobj * rres :=
   match lru_get (h_cache h) k with
   | Some v => ({| h_data := h_data h; h_cache := (k, v) :: lru_remove (h_cache h) k |}, v)
   | None =>
@@ -454,7 +487,7 @@ Definition new_handlers (initial : hdata) (fresh : list handler) : hobj :=
   | _ => h_update empty_obj initial
   end.
 
-Definition step (o : oracle) (w : world) (i : nat) (x : op) : world * obs :=
+Definition step (o : cfg) (w : world) (i : nat) (x : op) : world * obs :=
   let h := nth i w empty_obj in
   match x with
   | OSet k v => (upd w i (h_set h k v), ONone)
@@ -480,7 +513,7 @@ Definition step (o : oracle) (w : world) (i : nat) (x : op) : world * obs :=
   | OKeys => (w, OKeyList (map fst (h_data h)))
   end.
 
-Fixpoint run_ops (o : oracle) (w : world) (l : list (nat * op)) : world * list obs :=
+Fixpoint run_ops (o : cfg) (w : world) (l : list (nat * op)) : world * list obs :=
   match l with
   | [] => (w, [])
   | (i, x) :: tl => let '(w1, ob) := step o w i x in
